@@ -223,6 +223,22 @@ def typeCheck (declared : List Ty) (args : List (Option Ty)) : Except Err Unit :
   if (declared.zip args).all (fun p => match p.2 with | none => true | some t => t.sub p.1)
   then .ok () else .error .typeError
 
+/-- the type of the Var in a slot: defaults (`initializer(array)`) are not modelled (`none`) -/
+def slotType (posT : List Ty) (kwT : List (String × Ty)) : Slot → Option Ty
+  | .pos i => posT[i]?
+  | .kw n => kwT.lookup n
+  | .dflt _ => none
+
+/-- `inline_inner` followed by `_Inline.infer_output_types`' argument check -/
+def call (p : Prepared) (c : Call) (posT : List Ty) (kwT : List (String × Ty)) :
+    Except Err (List Slot) :=
+  match bind p.inNames p.defaults c with
+  | .error e => .error e
+  | .ok slots =>
+    match typeCheck p.inTypes (slots.map (slotType posT kwT)) with
+    | .error e => .error e
+    | .ok _ => .ok slots
+
 /-! ## `_Inline.to_onnx`: renaming into the outer name space -/
 
 mutual
@@ -426,5 +442,42 @@ def evalModel (sem : OpSem V) (lit : Lit → V) (g : Graph) (vals : List V) : Op
   evalGraph sem lit g (fun _ => none) (vals.map some)
 
 end Sem
+
+end Inline
+
+/-! ## Ownership of the caller's model during `inline()` (for `normalise_pure`)
+
+The statements of `inline` as classified by `translator/inline_facts.py`.  The local name `model`
+is bound either to the caller's object (`loc = none`) or to a private object. -/
+namespace Inline
+
+inductive Stmt | read | copy | mutate | other
+deriving DecidableEq, Repr
+
+structure Own (α : Type) where
+  /-- content of the caller's object -/
+  caller : α
+  /-- content of the private object the local name is bound to, if it was rebound -/
+  loc : Option α
+
+/-- one statement; `f` is whatever the mutation does to the content -/
+def Own.step {α : Type} (f : α → α) : Stmt → Own α → Own α
+  | .copy, s => { s with loc := some (match s.loc with | none => s.caller | some x => x) }
+  | .mutate, s =>
+    (match s.loc with
+     | none => { s with caller := f s.caller }
+     | some x => { s with loc := some (f x) })
+  | _, s => s
+
+def Own.run {α : Type} (f : Nat → α → α) : List Stmt → Nat → Own α → Own α
+  | [], _, s => s
+  | st :: sts, k, s => Own.run f sts (k + 1) (Own.step (f k) st s)
+
+/-- no mutation before the (first) copy -/
+def copyFirst : List Stmt → Bool
+  | [] => true
+  | .copy :: _ => true
+  | .mutate :: _ => false
+  | _ :: sts => copyFirst sts
 
 end Inline
